@@ -65,6 +65,7 @@ class SeqMixin:
     def subst_value(self, v, pairs):
         if not pairs:
             return v
+        pairs = [(a, (z3.IntVal(b) if isinstance(b, int) else b)) for a, b in pairs]
         if is_z3(v):
             return concretize(z3.substitute(v, *pairs))
         if isinstance(v, SObj):
